@@ -1,3 +1,4 @@
+import NixModel.Drive.SchemaCheck
 import NixModel.Dump
 import NixModel.Drive.Common
 import NixModel.Drive.State
@@ -262,7 +263,12 @@ def handle (ds : DState) (op : String) (args impl : List String) : Option (DStat
           match Dump.parse impl with
           | some d =>
             (match St.firstDisagreement (St.observe ms1.store) d with
-            | none => some ({ ds1 with smodel := ms1 }, .ok (tag ++ "+M"))
+            | none =>
+              -- the store the library has just been compared with satisfies the schema, and the harness's handles have the
+              -- roles their kinds say (the run-time side of `apply_wt` / `run_wt`, Proofs/RolesHistory.lean)
+              (match St.schemaProblem ms1.store (ms1.slots.filterMap fun (_, h) => h.map fun h => (h.kind, h.obj)) with
+              | none => some ({ ds1 with smodel := ms1 }, .ok (tag ++ "+M"))
+              | some why => some ({ ds1 with smodel := { ms1 with lost := some "diverged" } }, .diff tag ("schema: " ++ why)))
             | some why => some ({ ds1 with smodel := { ms1 with lost := some "diverged" } }, .diff tag why))
           | none => some ({ ds1 with smodel := ms1 }, .ok tag)
         else some ({ ds1 with smodel := ms1 }, .ok (match pred with | .skip => tag | _ => tag ++ "+M"))
